@@ -218,6 +218,12 @@ PRE_IDIOMS = [
 ]
 
 
+GENERIC_CALLRULES = [
+    CallRule(r'\bstd::bind(?=\s*\(\s*std::move)', {2: 'bind_owned_tok($1, $2, 0)', 3: 'bind_owned_tok($1, $2, $3)'}, name='bind-owned'),
+    CallRule(r'(?<![\w.>:])post', {2: 'post_tok($2)'}, name='post(ctx, closure)'),
+]
+
+
 def lower_slot_assign(text, fn_slots_re):
     """assignment to a handler slot: destroys what the slot held (aux::function::operator=)."""
     if not fn_slots_re:
